@@ -164,7 +164,7 @@ package anytype
 //@   on_panic unchanged: listsUnchanged(H0)
 //@   ensures  len: len(ego.val) == n
 //@   ensures  others: forall j int :: 0 <= j && j < n && j != index ==> ego.val[j] == old(ego.val[j])
-//@   ensures  same-storage: arr(ego.val) == old(arr(ego.val)) && cap(ego.val) == old(cap(ego.val))
+//@   ensures  same-storage: arr(ego.val) == old(arr(ego.val)) && cap(ego.val) == old(cap(ego.val)) [AUX]
 //@   ensures  at: wrapsS(ego.val[index], value)
 //@   ensures  fluent: result == ego.ptr [C19]
 //@   ensures  ptr-kept: ego.ptr == old(ego.ptr)
@@ -302,7 +302,7 @@ package anytype
 //@   assigns  nothing
 //@   panics_iff false
 //@   ensures  own-storage: fresh(arr(result)) && off(result) == 0 [C09 C14]
-//@   ensures  typed: allocated(arr(result)) && kindAt(arr(result)) == KNARR && cap(result) == n
+//@   ensures  typed: allocated(arr(result)) && kindAt(arr(result)) == KNARR && cap(result) == n [AUX]
 //@   ensures  count: len(result) == cntK(A, KIND, n)
 //@   ensures  pick: forall k int :: 0 <= k && k < n && TEST(ego.val[k]) ==> 0 <= cntK(A, KIND, k) && cntK(A, KIND, k) < len(result) && result[cntK(A, KIND, k)] == PAYLOAD(ego.val[k])
 //@   ensures  all: (forall k int :: 0 <= k && k < n ==> TEST(ego.val[k])) ==> len(result) == n && (forall k int :: 0 <= k && k < n ==> result[k] == PAYLOAD(ego.val[k]))
@@ -637,7 +637,7 @@ package anytype
 //@   panics_iff false
 //@   ensures  len-kept: len(ego.val) == n
 //@   ensures  mirrored: forall k int :: 0 <= k && k < n ==> ego.val[k] == old(ego.val[n-1-k])
-//@   ensures  same-storage: arr(ego.val) == old(arr(ego.val)) && cap(ego.val) == old(cap(ego.val)) && off(ego.val) == old(off(ego.val))
+//@   ensures  same-storage: arr(ego.val) == old(arr(ego.val)) && cap(ego.val) == old(cap(ego.val)) && off(ego.val) == old(off(ego.val)) [AUX]
 //@   ensures  fluent: result == ego.ptr [C19]
 //@   loop 1
 //@     invariant bounds: -1 <= i && i <= n/2 - 1
